@@ -871,8 +871,8 @@ class PhaseTypeDistribution(MomentAwareDistribution):
 
             u_prev = u
 
-        # sort probabilities back to original order
-        moments = moments[np.argsort(end_times)]
+        # sort moments back to original order using the inverse of the sorting permutation
+        moments = moments[np.argsort(np.argsort(end_times, kind='stable'))]
 
         if np.isnan(moments).any():
             self._logger.warning(
@@ -1021,6 +1021,9 @@ class TreeHeightDistribution(PhaseTypeDistribution, DensityAwareDistribution):
         if not isinstance(t, Iterable):
             return self.cdf(np.array([t]))[0]
 
+        # convert sequences (lists, tuples) to array
+        t = np.asarray(t, dtype=float)
+
         # check for negative values
         if np.any(t < 0):
             raise ValueError("Negative values are not allowed.")
@@ -1068,8 +1071,8 @@ class TreeHeightDistribution(PhaseTypeDistribution, DensityAwareDistribution):
 
             u_prev = u
 
-        # sort probabilities back to original order
-        probs = probs[np.argsort(t)]
+        # sort probabilities back to original order using the inverse of the sorting permutation
+        probs = probs[np.argsort(np.argsort(t, kind='stable'))]
 
         if np.isnan(probs).any():
             self._logger.critical(
